@@ -453,6 +453,7 @@ def run(tier):
     rule_R6(res, prog)
     rule_R7(res, prog)
     rule_R8(res, prog)
+    rule_R9(res, prog)
     return res.finish()
 
 
@@ -1023,3 +1024,44 @@ def rule_R8(res, prog):
                                  file=fn.relfile, line=ln)
                 res.instance(rid, "parseSSLHandshake:%s fragment stored under same length, non-empty, overlap-tested" % ln, not why, finding=f_)
     res.floor(rid, 1)
+
+
+def rule_R9(res, prog):
+    """'grows a buffer beyond the documented maximum': the reassembly buffer of a fragmented TLS 1.3 handshake message is
+    allocated from the 24-bit length field of the message header.  Every call of tls13FragMessageReadInit lies under a
+    branch fact that bounds that length by a constant not above the handshake-message maximum of the TLS <= 1.2 decoder
+    (65536) - the same cap, so that an unauthenticated header cannot make the session allocate megabytes."""
+    from sa import cfgutil as cu
+    rid = "C08.R9"
+    res.rule(rid, "TLS 1.3 reassembly: the announced handshake message length is capped (<= 65536) before the buffer is allocated")
+    CAP = 65536
+    n = 0
+    for fn in sorted(prog.functions.values(), key=lambda f: f.qname):
+        if not fn.blocks or not fn.relfile.startswith("matrixssl/"):
+            continue
+        sites = cu.find_sites(fn, lambda q: q.get("k") == "call" and q.get("fn") == "tls13FragMessageReadInit")
+        if not sites:
+            continue
+        gf = cu.guard_facts(fn)
+        for (bid, idx, ln, call) in sites:
+            n += 1
+            a = strip(call["a"][2]) if len(call.get("a", [])) > 2 else None
+            nm = a.get("n") if a is not None and a.get("k") == "var" else None
+            ok = False
+            for (txt, tr) in gf.get(bid, ()):
+                mm = re.match(r"^\(%s (>|>=) (\d+)\)$" % re.escape(nm or "?"), txt)
+                if mm and not tr and int(mm.group(2)) <= CAP:
+                    ok = True
+                mm = re.match(r"^\(%s (<|<=) (\d+)\)$" % re.escape(nm or "?"), txt)
+                if mm and tr and int(mm.group(2)) <= CAP + 1:
+                    ok = True
+            f_ = None
+            if not ok:
+                f_ = Finding(PROP, rid, fn.name, "reassembly buffer sized by an uncapped wire length",
+                             "%s:%s %s(): tls13FragMessageReadInit(.., %s) without a branch fact %s <= %d: the buffer is allocated as large as "
+                             "the 24-bit handshake length field says (16 MB from ten unauthenticated bytes), while the TLS <= 1.2 decoder "
+                             "refuses anything above %d" % (fn.relfile, ln, fn.name, nm, nm, CAP, CAP), file=fn.relfile, line=ln)
+            res.instance(rid, "%s:%s tls13FragMessageReadInit under %s <= %d" % (fn.name, ln, nm, CAP), ok, finding=f_)
+    if n == 0 and prog.by_name.get("tls13FragMessageReadInit"):
+        raise AnalysisBroken("C08.R9: tls13FragMessageReadInit has no call site")
+    res.floor(rid, 1 if prog.by_name.get("tls13FragMessageReadInit") else 0)
